@@ -1,6 +1,6 @@
 """C06 - the Verilog reader builds exactly the design the source describes."""
 from simkit.engine import Prop
-from simkit import design_shrink
+from simkit import design_shrink, history
 from simkit.gen_hier import ScriptGen
 from simkit import corpus, textgen_verilog
 from simkit.oracles.links import check_links
@@ -87,7 +87,8 @@ class C06(Prop):
                       "order": r.choice(["bottom_up", "top_down", "shuffled", "shuffled"]),
                       "positional_rate": r.choice([0.0, 0.3, 0.6])}
         cfg["render"] = {"ws": r.choice(["plain", "wild"]), "comment_rate": r.choice([0.0, 0.15]),
-                         "wire_kw": r.choice(["wire", "wire", "reg"])}
+                         "wire_kw": r.choice(["wire", "wire", "reg"]), "group_decls": r.random() < 0.3}
+        cfg["prior_rejected"] = r.random() < 0.2   # an earlier, refused read in the same process
         return cfg
 
     def make_gen(self, w, rng, cfg):
@@ -98,6 +99,8 @@ class C06(Prop):
             d = textgen_verilog.gen_design(rng, cfg["gen"])
             rs = rng.getrandbits(32)
             text = design_shrink.render("v", d, rs, cfg["render"])
+            if cfg.get("prior_rejected"):
+                ev.extend(history.prior_rejected(rng, text, "sim://bad.v"))
             ev.append({"op": "fs_put", "path": "sim://in.v", "text": text, "design": d, "fmt": "v",
                        "render": cfg["render"], "render_seed": rs})
         ev.append({"op": "parse", "path": "sim://in.v"})
@@ -107,6 +110,8 @@ class C06(Prop):
         self.design = None
 
     def before(self, w, ev):
+        if ev.get("prior"):
+            return None
         if ev["op"] == "fs_put":
             self.design = ev.get("design")
             if self.design and any(p.get("alias") or p.get("alias_wide") or p.get("alias_bits") for m in self.design["modules"] for p in m["ports"]):
@@ -117,6 +122,9 @@ class C06(Prop):
 
     def after(self, w, ev, outcome, pre):
         if ev["op"] != "parse":
+            return
+        if ev.get("prior"):
+            w.count("fault.prior_read_" + ("refused" if outcome != "ok" else "accepted"))
             return
         disc = "gen" if self.design else "example"
         if outcome != "ok":
